@@ -50,7 +50,7 @@ def cubic_expected(cub, cw, ss, rtt, now):
 
 class C17(Prop):
     id = "C17"
-    props_file = ["Props/C17.v", "Props/C17_Examples.v", "Props/C17_Bridge.v", "Props/C17_BridgeResend.v"]
+    props_file = ["Props/C17.v", "Props/C17_Examples.v", "Props/C17_Bridge.v", "Props/C17_BridgeResend.v", "Props/C17_BridgeRun.v"]
     coq_imports = ["From ONL Require Import Base.Cmp Tcp.Sender Tcp.Cubic Tcp.AppSender."]
     n_quick = 700
     n_thorough = 12000
@@ -90,7 +90,7 @@ class C17(Prop):
                    "kind 'app' (coq/Tcp/AppSender.v): any flow.size, scripted arrival_dist / size_dist (non-negative writes), start_time, finish_time",
                    "RTT samples are non-negative (ack.time <= now); initial rtt_estimate > 0"]
     partial = ["the translated-definition tie covers the CongestionControl / TCPReno / TCPCubic method bodies and TCPPacketGenerator.put / "
-               "timeout_callback (Props/C17_Bridge.v); resend_packet and the loop that stops acknowledged timers are tied by Props/C17_BridgeResend.v (the loop as one generated iteration run with fuel); run() is a generator and is tied by the correspondence and the monitor only",
+               "timeout_callback (Props/C17_Bridge.v); resend_packet and the loop that stops acknowledged timers are tied by Props/C17_BridgeResend.v (the loop as one generated iteration run with fuel); run() is a generator: vlib/translate_gen.py (tables props/tcprun_tie.py) cuts it at its yields and at the heads of its two loops into coq/Gen/Extracted_tcprun.v, and the C17_gen_tcp_run_* theorems (Props/C17_BridgeRun.v, proofs Tcp/RunBridge.v) prove every mode step of arun (Tcp/AppSender.v) equal to the generated loop head, effects and requests given their meaning by tcp_apply; that the kernel resumes run() at these points stays with the correspondence",
                "binary64 rounding: theorems are over Q; CUBIC's cnt is compared within 1e-5 (ill-conditioned max_cnt), W_tcp within 1e-9",
                "behaviour outside C17's text (stated, not judged): C17 speaks of whole segments only. What the code does with buffered data short of "
                "one MSS -- a short application write, or the trailing partial segment of a flow whose size is not a multiple of the MSS -- is: "
@@ -243,6 +243,8 @@ class C17(Prop):
         T.write_extracted_cc(fw.REPO, fw.VERIF)
         from props import tcp_tie
         tcp_tie.write_extracted_tcpsender(fw.REPO, fw.COQ)
+        from props import tcprun_tie
+        tcprun_tie.write_extracted_tcprun(fw.REPO, fw.COQ)
 
     # ---- implementation ---------------------------------------------------------------------
     def run_impl(self, case):
